@@ -1,12 +1,15 @@
 import MypyVerif.Model.VTable
 import MypyVerif.Model.ForRange
 import MypyVerif.Model.ErrEdges
+import MypyVerif.Model.ForZip
 /-!
 Line-protocol driver for the C05 models (model files only).
 
   V <class> <class> …        class = `<T|C>:<mro, comma separated>:<name/sig, comma separated>` in definition order
       → `wf=<0|1> ; <class> ; <class> …` with class =
-        `vt=<name>:<slot>,… es=<entry>,… tv=<trait>[<entry>,…]+… g=<0|1>`
+        `vt=<name>:<slot>,… es=<entry>,… tv=<trait>[<entry>,…]+… g=<0|1> mf=<name>:<is_method_final 0|1>,…`
+        (class tokens may carry a 4th field: the children, comma separated; the first output item also has
+        `sc=<0|1>`: children reach every class that has the class in its MRO)
         entry = `<cls>.<name>.d.<definer>` | `<cls>.<name>.g.<definer>.<forcls>`; vt sorted by name;
         g = every glue subscript of `specialize_parent_vtable` finds its key
   D <class> … | <c> <d> <m>   → `e=<entry|none> py=<definer|none>`  (dispatch through the model's tables vs MRO lookup)
@@ -17,6 +20,8 @@ Line-protocol driver for the C05 models (model files only).
         op = `<dest|->:<use,use,…>:<n|m|f|a>:<0|1>` (error kind never/magic/false/always; 1 = IncRef/DecRef),
         term = `g <l>` | `b <e|b> <value|-> <negated 0|1> <true> <false>` | `r` | `u`
       → `ok` | `bad <index of the first block checkBlock rejects>`
+  Z <len> <len> …             operand lengths of a zip loop
+      → `body=<n> taken=<k0>,<k1>,…`   (ForZip.run)
 -/
 open VTable ForRange
 
@@ -34,6 +39,7 @@ def parseMethods (s : String) : List (Nat × Nat) :=
 def parseClass (t : String) : Option ClassRec :=
   match t.splitOn ":" with
   | [k, mro, ms] => some { isTrait := k == "T", mro := parseNats mro, methods := parseMethods ms }
+  | [k, mro, ms, ch] => some { isTrait := k == "T", mro := parseNats mro, methods := parseMethods ms, children := parseNats ch }
   | _ => none
 
 def parseHier (s : String) : Option Hier :=
@@ -62,9 +68,13 @@ def showVMap (v : VMap) : String :=
 
 def same (a b : Nat) : Bool := a == b
 
-def showClass (H : Hier) (v : ClassVT) : String :=
+def allNames (H : Hier) : List Nat :=
+  ((H.flatMap (fun r => r.methods.map (·.1))).foldl (fun acc n => if acc.contains n then acc else insertSorted (n, 0) (acc.map (·, 0)) |>.map (·.1)) [])
+
+def showClass (H : Hier) (c : Nat) (v : ClassVT) : String :=
   let tv := "+".intercalate (v.traitVTs.map fun p => s!"{p.1}[{showEntries p.2}]")
-  s!"vt={showVMap v.vtable} es={showEntries v.entries} tv={tv} g={if glueOk same H v then 1 else 0}"
+  let mf := ",".intercalate ((allNames H).map fun n => s!"{n}:{if isMethodFinal H c n then 1 else 0}")
+  s!"vt={showVMap v.vtable} es={showEntries v.entries} tv={tv} g={if glueOk same H v then 1 else 0} mf={mf}"
 
 def showInts (l : List Int) : String := ",".intercalate (l.map toString)
 
@@ -118,7 +128,8 @@ def stepE (s : String) : String :=
 
 def stepV (H : Hier) : String :=
   let tbl := computeAll same H
-  s!"wf={if wfAll H then 1 else 0} ; " ++ " ; ".intercalate (tbl.map (showClass H))
+  s!"wf={if wfAll H then 1 else 0} sc={if subclassesComplete H then 1 else 0} ; " ++
+    " ; ".intercalate ((List.range tbl.length).map fun c => showClass H c (tbl.getD c emptyVT))
 
 def step (line : String) : String :=
   let line := line.trimAscii.toString
@@ -137,6 +148,10 @@ def step (line : String) : String :=
         s!"e={e} py={py}"
       | _, _ => "bad-query"
     | _ => "bad-query"
+  else if line.startsWith "Z " then
+    let lens := ((line.drop 2).toString.splitOn " ").filterMap (·.toNat?)
+    let r := ForZip.run (ForZip.minLen lens + 2) lens
+    s!"body={r.1} taken={",".intercalate (r.2.map toString)}"
   else if line.startsWith "E " then stepE (line.drop 2).toString
   else if line.startsWith "R " then
     match ((line.drop 2).toString.splitOn " ").filter (· ≠ "") with
